@@ -26,7 +26,7 @@ LEVEL_NOTE = ('Text compared to printed precision (%10.3f -> 5e-4 absolute, %10.
 RULE = ("cases: (permutation, format, column variant); executions: one call per (function, selector, input form, additional), one evaluation per printed row; non-trivial = distinct "
         "(case, function, selector, form) with a non-identity permutation and at least one fit kept")
 ASSUMPTIONS = ["package self-consistent: convolved files and parameter table share the row order", "model names unique"]
-REQUIRED_CLASSES = ['keeps-none', 'keeps-one', 'keeps-some', 'keeps-all', 'form-file', 'form-object', 'form-list', 'additional-1', 'additional-2', 'nan-column', 'four-columns',
+REQUIRED_CLASSES = ['parameter-values-beyond-single-precision', 'some-sources-keep-fits-others-none', 'one-object-listed-twice', 'keeps-none', 'keeps-one', 'keeps-some', 'keeps-all', 'form-file', 'form-object', 'form-list', 'additional-1', 'additional-2', 'nan-column', 'four-columns',
                     'write_parameters', 'write_parameter_ranges', 'extract_parameters', 'filter_table', 'plot-params-table', 'permuted', 'parameters-gz', 'parameter-file-rewritten', 'model-name-column-not-first', 'extract-explicit-parameter-list', 'flag-changed-in-place-between-listings', 'second-package-same-names']
 TIMEOUT = {'quick': 600, 'thorough': 3000}
 
@@ -35,7 +35,7 @@ def setup(tier, seed):
     n = 4 if tier == 'quick' else 5
     out = []
     for i, p in enumerate(itertools.permutations(range(n))):
-        out.append({'n': n, 'perm': list(p), 'fmt': 'v1' if i % 2 == 0 else 'v2', 'n_cols': [2, 1, 4][i % 3], 'nan': (i % 4 == 1), 'plots': (i in (5, 17) if tier == 'quick' else i % 20 == 5), 'par_gz': (i % 5 == 2), 'text_col': (i % 7 == 3), 'name_pos': [0, 1, 9][i % 3]})
+        out.append({'n': n, 'perm': list(p), 'fmt': 'v1' if i % 2 == 0 else 'v2', 'n_cols': [2, 1, 4][i % 3], 'nan': (i % 4 == 1), 'plots': (i in (5, 17) if tier == 'quick' else i % 20 == 5), 'par_gz': (i % 5 == 2), 'text_col': (i % 7 == 3), 'name_pos': [0, 1, 9][i % 3], 'extreme': (i % 6 == 4)})
     return {'tier': tier, 'seed': seed, 'cases': out}
 
 
@@ -65,7 +65,9 @@ def run_case(ctx, case, rec, d):
     from sedfitter.fit_info import FitInfo
     seed = ctx['seed']
     n, perm = case['n'], case['perm']
-    md, pk = pc.build(d, 'pkg', case['fmt'], n, perm=perm, n_cols=case['n_cols'], nan_col=case['nan'], seed=seed, par_gz=case.get('par_gz', False), name_pos=case.get('name_pos', 0))
+    md, pk = pc.build(d, 'pkg', case['fmt'], n, perm=perm, n_cols=case['n_cols'], nan_col=case['nan'], seed=seed, par_gz=case.get('par_gz', False), name_pos=case.get('name_pos', 0), extreme=case.get('extreme', False))
+    if case.get('extreme'):
+        rec.cls('parameter-values-beyond-single-precision')
     if case.get('name_pos'):
         rec.cls('model-name-column-not-first')
     if case.get('par_gz'):
@@ -87,6 +89,12 @@ def run_case(ctx, case, rec, d):
     cfg = (tuple(perm), case['fmt'], case['n_cols'], case['nan'])
     rec.state(cfg)
     sels = _selectors(np.asarray(base_infos[0].chi2, float), int(base_infos[0].source.n_data))
+    # thresholds between the best chi^2 of different sources: some sources then keep fits and others, before or after them, none
+    bests = sorted(float(np.min(np.asarray(i_.chi2, float))) for i_ in base_infos)
+    for a_, b_ in zip(bests, bests[1:]):
+        if b_ > a_ * (1 + 1e-6) + 1e-9:
+            sels.append(('C', 0.5 * (a_ + b_)))
+            rec.cls('some-sources-keep-fits-others-none')
     call = [0]
 
     def fresh(form):
@@ -306,6 +314,19 @@ def run_case(ctx, case, rec, d):
                             if not same:
                                 rec.violation('filter_table|rows', sub, {'got': got, 'expected': want})
     rec.trace()
+    # ---- ONE result object handed to two listings in a row, the first with the narrower selector: the second still lists every fit
+    for fname, fn in (('write_parameters', sedfitter.write_parameters), ('write_parameter_ranges', sedfitter.write_parameter_ranges)):
+        one = pc.fit_all(fitter, srcs)[0]
+        o1, o2 = os.path.join(d, 'same_%s_1.txt' % fname), os.path.join(d, 'same_%s_2.txt' % fname)
+        if _guard(rec, fname, {'same_object': 'first call'}, lambda: fn(one, o1, select_format=('N', 1))) and \
+                _guard(rec, fname, {'same_object': 'second call'}, lambda: fn(one, o2, select_format=('A', 0))):
+            rec.trans(2)
+            rec.ev()
+            rec.cls('one-object-listed-twice')
+            got_n = (pc.parse_write_parameters(o2)[1][0]['n_fits'] if fname == 'write_parameters' else pc.parse_ranges(o2)[0]['n_fits'])
+            if got_n != n:
+                rec.violation('%s|rows' % fname, {'same_object': True, 'calls': [['N', 1], ['A', 0]]},
+                              {'problem': 'the same result object listed with (N,1) and then with (A): the second listing has n_fits = %d, the result holds %d fits' % (got_n, n)})
     # ---- n_data is the source's count of fitted points NOW: a flag changed in place between two listings is honoured
     infos_live = pc.fit_all(fitter, srcs)
     out_a = os.path.join(d, 'live_a.txt')
